@@ -157,6 +157,9 @@ def run_fault_variant(case):  # noqa: C901
                     oprobs, cnt = crashlab.disk_oracle(tmpl, rundir, 'fault')
                     counters.update(cnt)
                     probs += oprobs
+                    if not res['raised']:
+                        probs += crashlab.completed_oracle(tmpl, rundir, 'fault')
+                        counters['completed-outcomes-verified'] += 1
                     counters['oracle-evaluations'] += 1
                     interrupted_repack = is_repack and res['raised']
                     if not interrupted_repack:
@@ -287,6 +290,9 @@ def run_sys_variant(case):  # noqa: C901
                     counters['sys-oracle-evaluations'] += 1
                     if mode == 'sysfault':
                         raised = run['result']['raised']
+                        if not raised:
+                            probs += crashlab.completed_oracle(tmpl, run['rundir'], 'sysfault')
+                            counters['completed-outcomes-verified'] += 1
                         for m, g in map(tuple, run['result'].get('problems') or []):
                             probs.append((f'sysfault:{m}', g))
                         if not (is_repack and raised):
